@@ -3273,7 +3273,11 @@ class UTPM(Ring, RawAlgorithmsMixIn):
         D,P = a.data.shape[:2]
 
         if out is None:
-            r = cls(numpy.zeros(a.data.shape, dtype=complex))
+            shp = list(a.data.shape)
+            if n is not None:
+                # the transformed axis (an axis of one coefficient a.data[d,p]) gets the length n
+                shp[axis if axis < 0 else axis + 2] = n
+            r = cls(numpy.zeros(shp, dtype=complex))
 
         else:
             r, = out
@@ -3308,7 +3312,11 @@ class UTPM(Ring, RawAlgorithmsMixIn):
         D,P = a.data.shape[:2]
 
         if out is None:
-            r = cls(numpy.zeros(a.data.shape, dtype=complex))
+            shp = list(a.data.shape)
+            if n is not None:
+                # the transformed axis (an axis of one coefficient a.data[d,p]) gets the length n
+                shp[axis if axis < 0 else axis + 2] = n
+            r = cls(numpy.zeros(shp, dtype=complex))
 
         else:
             r, = out
